@@ -5,6 +5,7 @@ from fractions import Fraction
 from ..lib import core
 from ..lib.core import Failure, Disagreement
 from ..extract import units as _ex
+from ..extract import units_compound as _ex2
 
 PROP = "C09"
 LEAN_MODULE = "NixModel.Props.C09"
@@ -45,7 +46,9 @@ POWER7 = ["^-3", "^-2", "^-1", "", "^1", "^2", "^3"]
 
 
 def extract(repo):
-    return _ex.extract(repo)
+    files = dict(_ex.extract(repo))
+    files.update(_ex2.extract(repo))
+    return files
 
 
 def _tables():
